@@ -8,7 +8,7 @@ use hifitime::{Epoch, TimeScale};
 use proptest::prelude::*;
 use serde::{Deserialize, Serialize};
 
-pub const RULE: &str = "exhaustive grid (28 entries x both axes x {-40..+40 s} x {-1,0,+1 ns}) plus generated UTC and TAI instants (ns resolution inside +-40 s and +-1 us of every entry on the UTC axis and both TAI images, between entries, 1958-1972, before 1900, up to year 9999 and +-30 000 years), each converted in both directions and compared with u + dat(u) from the harness's own table (28 civil dates -> seconds via days-from-civil); table rows and generated IERS-format provider files compared row by row; non-trivial = instant within 40 s of an entry (either axis), or before 1972, or provider != built-in; distinct = distinct case tuples (hash set, capped: lower bound)";
+pub const RULE: &str = "exhaustive grid (28 entries x both axes x {-40..+40 s} x {-1,0,+1 ns}) plus generated UTC and TAI instants (ns resolution inside +-40 s and +-1 us of every entry on the UTC axis and both TAI images, between entries, 1958-1972, before 1900, up to year 9999 and +-30 000 years), each converted in both directions and compared with u + dat(u) from the harness's own table (28 civil dates -> seconds via days-from-civil); table rows and generated IERS-format provider files compared row by row; non-trivial = instant within 40 s of an entry (either axis), or before 1972, or provider != built-in; distinct = distinct case tuples (hash set, capped: lower bound); walks (c06.chain): non-trivial = at least two conversions and a state within 41 s of a leap entry, three or more scales, or a state before 1900";
 
 pub const ASSUMPTIONS: &[&str] = &[
     "the reference table is the list of 28 civil dates and offsets in harness/src/model.rs (public IERS facts); it is compared with /repo/data/leap-seconds.list and the DELTET/DELTA_AT block of /repo/naif0012.txt parsed by the harness's own parsers",
